@@ -553,6 +553,22 @@ func (x *Exec) trCall(t *CCall, env *Env) Val {
 		}
 		key := lit.Val
 		return Val{T: tBool, S: eq(arg(0).S, x.funcIDByKey(key))}
+	case "sprintf":
+		// sprintf("<format>", args...): the same uninterpreted function the executed fmt.Sprintf call is modelled by
+		lit, ok := t.Args[0].(*CStr)
+		if !ok {
+			x.fail("sprintf: the format must be a string literal")
+		}
+		var sorts []string
+		var terms []Term
+		for i := 1; i < len(t.Args); i++ {
+			v := arg(i)
+			sorts = append(sorts, x.so.sortOf(v.T))
+			terms = append(terms, v.S)
+		}
+		fn := "sprintf_" + sanitize(strings.TrimPrefix(x.so.strConst(lit.Val), "str!")) + "_" + fmt.Sprint(len(terms))
+		x.sc.declFun(fn, sorts, "Str")
+		return Val{T: types.Typ[types.String], S: app(fn, terms...)}
 	case "pathJoin":
 		// filepath.Join(a, b) as the executed code computes it (injective uninterpreted function)
 		x.sc.declFun("pathJoin", []string{"Str", "Str"}, "Str")
